@@ -29,10 +29,20 @@ fn scratch_file(name: &str) -> std::path::PathBuf {
     })
 }
 
+/// Both entry points: `load_file`, and (for every second text, chosen by its length) `load_file_bytes`,
+/// whose bytes must decode to the instance.
 fn load(text: &str) -> Result<Result<v1::Instance, String>, String> {
+    use ommx::Message;
     let p = scratch_file("in.qplib");
     std::fs::write(&p, text).expect("ENGINE: scratch write");
-    sdk(|| ommx::qplib::load_file(&p).map_err(|e| format!("{e:#}")))
+    if text.len() % 2 == 0 {
+        sdk(|| ommx::qplib::load_file(&p).map_err(|e| format!("{e:#}")))
+    } else {
+        sdk(|| {
+            let bytes = ommx::qplib::load_file_bytes(&p).map_err(|e| format!("{e:#}"))?;
+            v1::Instance::decode(bytes.as_slice()).map_err(|e| format!("load_file_bytes returned bytes that do not decode as an instance: {e}"))
+        })
+    }
 }
 
 fn eff_domain(v: &v1::DecisionVariable) -> (bool, f64, f64) {
@@ -376,7 +386,7 @@ pub fn run(ctx: &Ctx) -> Finish {
     ctx.assume("Outside the alphabet: well-formed but out-of-range indices (0, > n), upper-triangle entries, repeated entries for the same position.");
     Finish {
         level: "model_checking",
-        rule: "abstract QP models for EACH of the 120 problem-type codes (objective L/D/C/Q x variables C/B/M/I/G x constraints N/B/L/D/C/Q) x sizes (n,m) x a deterministic sweep that visits every value of every content dimension (Q0 diagonal/off-diagonal patterns, default and non-default b0 incl. explicit zero, q0, per-constraint Qi/bi (constraints without linear entries: none / the last / the first / all), constraint sides finite / at threshold / beyond threshold / equal, variable bounds likewise, variable types, names, infinity value 1e20 / 50, sense) x layouts (comment lines with ! # %, blank lines, trailing text, lower-case keywords, sparse sections written in ascending or descending index order), rendered by the harness's own writer and loaded with qplib::load_file; expected problem computed from the model: objective 1/2 x'Q0x + b0'x + q0 from the lower triangle, one <=0 constraint per finite side, variables; fault files: each type-code character invalid, counts non-numeric / negative / fractional, unparsable numbers, truncation after every line => Err carrying the line number".into(),
+        rule: "abstract QP models for EACH of the 120 problem-type codes (objective L/D/C/Q x variables C/B/M/I/G x constraints N/B/L/D/C/Q) x sizes (n,m) x a deterministic sweep that visits every value of every content dimension (Q0 diagonal/off-diagonal patterns, default and non-default b0 incl. explicit zero, q0, per-constraint Qi/bi (constraints without linear entries: none / the last / the first / all), constraint sides finite / at threshold / beyond threshold / equal, variable bounds likewise, variable types, names, infinity value 1e20 / 50, sense) x layouts (comment lines with ! # %, blank lines, trailing text, lower-case keywords, sparse sections written in ascending or descending index order), rendered by the harness's own writer and loaded with qplib::load_file or qplib::load_file_bytes (+ decode); expected problem computed from the model: objective 1/2 x'Q0x + b0'x + q0 from the lower triangle, one <=0 constraint per finite side, variables; fault files: each type-code character invalid, counts non-numeric / negative / fractional, unparsable numbers, truncation after every line => Err carrying the line number".into(),
         bounds: json!({"n_max": 5, "m_max": 4, "codes": 120, "sweep": sweep, "layouts": lays.len()}),
         exhaustive: true,
     }
